@@ -80,12 +80,30 @@ Theorem C04_bp_nothing_after_close : forall sid me c ops1 ops2, let s1 := fst (r
 Proof. exact nothing_after_close. Qed.
 Print Assumptions C04_bp_nothing_after_close.
 
+(* own id and method, for EVERY id an IdProvider can return: `sid` is a Wire.subid = SubscriptionId::{Num(u64), Str(String)}
+   (`wf_subid`: the number fits u64 / the string is UTF-8, i.e. it is a value of the Rust type -- any characters, quotes,
+   backslashes, control characters, non-ASCII); every frame received or still queued, and every full notification text
+   handed back to the handler, reads back (Wire.parse_sub_notif = the client's SubscriptionResponse parser) as exactly
+   (notification method, that id, a produced payload).  Payloads are u64 as in the harness. *)
+From JV Require Base.Utf8 Base.Dec Model.Wire Proofs.WireFacts.
+
+Theorem C04_bp_notification_carries_own_id : forall (sid : Wire.subid) me c ops, WireFacts.wf_subid sid -> Utf8.utf8_valid me = true -> (forall x, In x (produced ops) -> (x <= Dec.u64_max)%N) -> let r := run sid me (init c) ops in (forall f, In f (received (snd r) ++ q (fst r)) -> exists x, In x (produced ops) /\ Wire.parse_sub_notif Wire.k_result f = Some (me, sid, payload x)) /\ (forall k j, In (k, Complete j) (held (fst r)) -> exists x, In x (produced ops) /\ Wire.parse_sub_notif Wire.k_result j = Some (me, sid, payload x)).
+Proof. exact notification_carries_own_id. Qed.
+Print Assumptions C04_bp_notification_carries_own_id.
+
 (* non-vacuity: capacity 1; 7 goes in, 8 times out and comes back Complete, 7 is received, 8 is re-sent (try_send) and
    received exactly as produced; after close a fresh 9 is refused and handed back as it was given *)
 Definition ex_bp_ops : list op := [OSend PSend 7 7; OSend PTimeout 8 8; ORecv; OResend PTry 8; ORecv; OClose; OSend PTry 9 9; ORecv].
 
 Example C04_bp_nonvacuous : let r := run 1000 b#"note" (init 1) ex_bp_ops in let it := fun x => to_json 1000 b#"note" (NeedsData (payload x)) in map snd (snd r) = [ROk; RTimeout (Complete (it 8%N)); RFrame (it 7%N); ROk; RFrame (it 8%N); RDone; RClosed (NeedsData (payload 9)); REnd] /\ received (snd r) = [it 7%N; it 8%N] /\ oklog (snd r) = [7%N; 8%N] /\ held (fst r) = [(9%N, NeedsData (payload 9))] /\ it 8%N = b#"{""jsonrpc"":""2.0"",""method"":""note"",""params"":{""subscription"":1000,""result"":8}}".
 Proof. vm_compute. repeat split. Qed.
+
+(* a string id that needs escaping (a, quote, b, backslash, c, line feed, 0x01): the frame carries it escaped and reads
+   back as that id; so does the full notification text handed back by the failed try_send *)
+Definition ex_bp_sid : Wire.subid := Wire.SubStr (b#"a""b\c" ++ [x0a; x01]).
+
+Example C04_bp_string_id_nonvacuous : let r := run ex_bp_sid b#"note" (init 1) [OSend PTry 7 7; OSend PTry 8 8; ORecv] in let f := b#"{""jsonrpc"":""2.0"",""method"":""note"",""params"":{""subscription"":""a\""b\\c\n\u0001"",""result"":7}}" in WireFacts.wf_subid ex_bp_sid /\ received (snd r) = [f] /\ Wire.parse_sub_notif Wire.k_result f = Some (b#"note", ex_bp_sid, payload 7) /\ exists j, held (fst r) = [(8%N, Complete j)] /\ Wire.parse_sub_notif Wire.k_result j = Some (b#"note", ex_bp_sid, payload 8).
+Proof. cbv zeta. split; [vm_compute; reflexivity|]. split; [vm_compute; reflexivity|]. split; [vm_compute; reflexivity|]. eexists. split; [vm_compute; reflexivity | vm_compute; reflexivity]. Qed.
 
 (* ==================================================================================================================
    C04, connection-queue block (engine `connq`).  Model/ConnQueue.v: ONE connection's bounded outgoing queue (MethodSink
